@@ -990,11 +990,12 @@ class Engine:
             # apply updates based on process times in self.front
             if full_step == math.inf:
                 # no processes ran, jump to next process
-                next_event = end_time
-                for path in self.front.keys():
-                    if self.front[path]['time'] < next_event:
-                        next_event = self.front[path]['time']
-                self.global_time = next_event
+                # no update is in flight and none can start before
+                # end_time, so nothing can change until then
+                self.global_time = end_time
+                for quiet in quiet_paths:
+                    self.front[quiet]['time'] = self.global_time
+                    self.front[quiet]['update'] = {}
 
             elif self.global_time + full_step <= end_time:
                 # at least one process ran within the interval
@@ -1034,6 +1035,9 @@ class Engine:
             else:
                 # all processes have run past the interval
                 self.global_time = end_time
+                for quiet in quiet_paths:
+                    self.front[quiet]['time'] = self.global_time
+                    self.front[quiet]['update'] = {}
 
             if force_complete and self.global_time == end_time:
                 force_complete = False
